@@ -313,6 +313,13 @@ def handle (st : St) (line : String) : IO St := do
       | some g =>
         if Riti.Json.printBytes g == bytes then return bump st "json-writer-agrees"
         else report st s!"MISMATCH case={st.caseName} line={st.lineNo} json-written: the model prints the same entries differently bytes={hx}"
+  | ["rankcmp", va, na, vb, row] =>
+    -- `impl Ord for Rank` on one row of its complete domain against `Rank.cmp` (over the generated arm table)
+    let mk (v n : Nat) : Riti.Rank := match v with | 0 => .first ['x'] | 1 => .emoji ['x'] n | 2 => .other ['x'] n | _ => .last ['x'] n
+    let a := mk va.toNat! na.toNat!
+    let want := (List.range 256).map (fun nb => match Riti.Rank.cmp a (mk vb.toNat! nb) with | .lt => 'L' | .eq => 'E' | .gt => 'G')
+    if want == row.toList then return bump st "rank-comparison-row-agrees"
+    else report st s!"MISMATCH case={st.caseName} line={st.lineNo} rankcmp {va} {na} {vb}: model=[{String.ofList want}] impl=[{row}]"
   | ["case", name] =>
     return { st with caseName := name, ctxs := {}, fs := {}, cases := st.cases + 1 }
   | ["fs-sel", "-"] => return { st with fs := { st.fs with sel := .absent } }
